@@ -387,7 +387,11 @@ func verifyLemma(p *Program, ax Axiom) (res *UnitResult) {
 		}
 		r.oblige(st, "lemma", "base", r.specBool(env, base, "induction base of "+ax.Name), nil, "induction base (lo == hi) of "+ax.Name, nil)
 		r.oblige(st, "lemma", "step", r.specBool(env, step, "induction step of "+ax.Name), nil, "induction step (lo+1 => lo) of "+ax.Name, nil)
-		r.assumption("induction principle on hi - lo for " + ax.Name + " (base and step are machine-checked; the principle itself is qv's)")
+		on := "hi - lo"
+		if strings.HasPrefix(ax.Induct, "up ") {
+			on = "k (upwards from 0)"
+		}
+		r.assumption("induction principle on " + on + " for " + ax.Name + " (base and step are machine-checked; the principle itself is qv's)")
 		r.oblige(st, "canary", "entry", "false", nil, "domain axioms are consistent (must NOT be provable)", nil)
 		return res
 	}
